@@ -136,8 +136,8 @@ struct HostEndian<T, std::enable_if_t<std::is_floating_point<T>::value>> {
     union {
       Integral value;
       T native;
-    } output{HostEndian<Integral>::FromLittle(input.data,
-                                              std::make_index_sequence<N>{})};
+    } output{HostEndian<Integral>::FromBig(input.data,
+                                           std::make_index_sequence<N>{})};
     return output.native;
   }
 
@@ -153,8 +153,8 @@ struct HostEndian<T, std::enable_if_t<std::is_floating_point<T>::value>> {
     union {
       Integral value;
       T native;
-    } output{HostEndian<Integral>::FromBig(input.data,
-                                           std::make_index_sequence<N>{})};
+    } output{HostEndian<Integral>::FromLittle(input.data,
+                                              std::make_index_sequence<N>{})};
     return output.native;
   }
 
